@@ -6,6 +6,7 @@ import (
 	"os"
 	"os/exec"
 	"path/filepath"
+	"reflect"
 	"runtime"
 	"strings"
 	"sync"
@@ -149,11 +150,36 @@ var ownScripts = []string{
 	`n = 0; foreach i, v in BigList { if ( string(v) ~= /7$/ ) { n = n + i; } } return n;`,
 	`return [sort(BigList)[0], reverse(BigList, true)[0], len(BigList), len(string(BigList))];`,
 	`return [BigHash[Name], BigHash["k3"], BigHash[Age], len(BigHash), keys(BigHash)[0]];`,
-	`n = 0; foreach k, v in BigHash { n = n + len(string(k)) + len(string(v)); } return n;`,
+	`n = 0; foreach k, v in BigHash { n = n + len(string(k)) + len(string(v)); if ( n > 40 ) { return n; } } return n;`,
+	`return [len(keys(BigHash)), keys(BigHash)[3], "k7" in keys(BigHash), len(string(BigHash))];`,
+	`s = string(BigHash); return [len(s), s ~= /k59/, type(BigHash[Name])];`,
 	`n = 0; foreach c in BigWord { n++; } return [n, BigWord[2], "w1" in BigWord, upper(BigWord), BigNumber + Age, BigFloat * 2];`,
 	// patterns that only exist at run time
 	`return match(Email, Pat);`,
 	`return [match(Email, Pat), replace(Email, Pat, "<>")];`,
+}
+
+// oddRecord: the person's data in a struct type made for the occasion, with
+// one more field of a kind the engine cannot represent ([n]uint8 for a fresh n,
+// or a fresh struct type).
+func oddRecord(i, n int) interface{} {
+	p := personFor(i)
+	oddType := reflect.ArrayOf(1+n%5000, reflect.TypeOf(uint8(0)))
+	if n%3 == 0 {
+		oddType = reflect.StructOf([]reflect.StructField{{Name: fmt.Sprintf("F%d", n), Type: reflect.TypeOf(uint16(0))}})
+	}
+	st := reflect.StructOf([]reflect.StructField{
+		{Name: "Name", Type: reflect.TypeOf("")}, {Name: "Age", Type: reflect.TypeOf(0)}, {Name: "Tags", Type: reflect.TypeOf([]string{})},
+		{Name: "Email", Type: reflect.TypeOf("")}, {Name: "Meta", Type: reflect.TypeOf(map[string]interface{}{})}, {Name: "Pat", Type: reflect.TypeOf("")},
+		{Name: "Odd", Type: oddType}})
+	v := reflect.New(st).Elem()
+	v.Field(0).SetString(p.Name)
+	v.Field(1).SetInt(int64(p.Age))
+	v.Field(2).Set(reflect.ValueOf(p.Tags))
+	v.Field(3).SetString(p.Email)
+	v.Field(4).Set(reflect.ValueOf(p.Meta))
+	v.Field(5).SetString(p.Pat)
+	return v.Interface()
 }
 
 // sharedHostVars builds, per workload, the objects that the host gives to
@@ -169,7 +195,7 @@ func sharedHostVars() map[string]object.Object {
 	put := func(k object.Object, v object.Object) {
 		hash.Pairs[k.(object.Hashable).HashKey()] = object.HashPair{Key: k, Value: v}
 	}
-	for i := 0; i < 14; i++ {
+	for i := 0; i < 60; i++ {
 		put(&object.String{Value: fmt.Sprint("k", i)}, &object.Integer{Value: int64(i)})
 		put(&object.Integer{Value: int64(i)}, &object.String{Value: fmt.Sprint("age", i)})
 	}
@@ -178,6 +204,20 @@ func sharedHostVars() map[string]object.Object {
 	return map[string]object.Object{"BigList": list, "BigHash": hash, "BigWord": &object.String{Value: "w1狐w2犬w3"},
 		"BigNumber": &object.Integer{Value: 70000}, "BigFloat": &object.Float{Value: 1.25}}
 }
+
+// the scripts of ownScripts that work on the host-given objects
+var hostScriptsFrom, hostScriptsTo = func() (int, int) {
+	from, to := -1, -1
+	for i, sc := range ownScripts {
+		if strings.Contains(sc, "Big") {
+			if from < 0 {
+				from = i
+			}
+			to = i + 1
+		}
+	}
+	return from, to
+}()
 
 func journalWorkload(w *Workload) {
 	out := os.Getenv("VERIF_OUT")
@@ -273,11 +313,18 @@ func runWorkload(w *Workload) error {
 					// other run - the one all goroutines of this workload meet for
 					// the first time at the same moment
 					p := withFreshPattern(objectFor(g + k))
-					if k%2 == 0 {
+					if k%5 == 4 {
+						// a record type nobody has seen before, with a field the
+						// engine cannot convert
+						p = oddRecord(g+k, int(atomic.AddInt64(&patCounter, 1)))
+					} else if k%2 == 0 {
 						p = withPattern(objectFor(g+k), fmt.Sprintf("^u[0-9]@|ww%d_%d_%dzz", wid, round, k))
 					}
 					a, err := e.Execute(p)
 					if err != nil {
+						if _, berr := seq.Execute(p); berr != nil && k%5 == 4 {
+							continue // a record with an unconvertible field may fail the run: both do
+						}
 						errs <- fmt.Errorf("own evaluator %d: %v", g, err)
 						return
 					}
@@ -340,7 +387,15 @@ func TestC11(t *testing.T) {
 	}()
 	rapidCheck(t, col, func(rt *rapid.T) {
 		w := &Workload{Prop: "C11", Kind: "workload", Procs: rapid.SampledFrom([]int{2, 4, 16}).Draw(rt, "procs"), Yield: rapid.Bool().Draw(rt, "yield")}
-		mode := rapid.SampledFrom([]string{"shared", "own", "both", "patterns"}).Draw(rt, "mode")
+		mode := rapid.SampledFrom([]string{"shared", "own", "both", "patterns", "hostvalues"}).Draw(rt, "mode")
+		if mode == "hostvalues" {
+			// every goroutine works on the objects the host gave to all of them
+			n := rapid.IntRange(4, 16).Draw(rt, "hostusers")
+			for i := 0; i < n; i++ {
+				w.Own = append(w.Own, ownScripts[hostScriptsFrom+gen.Uniform(rt, "hostscript", hostScriptsTo-hostScriptsFrom)])
+			}
+			w.OwnRuns = rapid.IntRange(3, 20).Draw(rt, "hostruns")
+		}
 		if mode == "patterns" {
 			// every goroutine feeds the process-wide regexp cache with patterns
 			// that never occurred before: well over a thousand per workload
